@@ -60,6 +60,7 @@ type State struct {
 	lockDepth int
 	ufApps   []*Term
 	b64      []b64Pair
+	watched  map[int]bool // map objects whose accesses are checked against the lock-state counters
 	facts    map[*Term]bool // Bool terms decided on this path (used to fold map-key comparisons)
 }
 
